@@ -271,9 +271,8 @@ func genC09(c *hlib.Ctx) {
 	for i := 0; i < nStores; i++ {
 		g := &storeGen{r: r, storedPool: []int{1, 2, 4, 5, 7, 9, 11}, extPool: []int{5, 6, 9, 11}}
 		blocks := g.genBlocks(r.Range(1, 3), 10, 1)
-		if r.Chance(1, 3) && len(blocks) > 1 {
+		if r.Chance(1, 3) && len(blocks) > 1 && addSeriesOnce(&blocks[1], blocks[0].series[0]) {
 			// the same series in two blocks: merged into one series of the answer, reserved twice
-			blocks[1].series = append(blocks[1].series, blocks[0].series[0])
 			blocks[1].ext = blocks[0].ext
 			c.Count("st:series-in-two-blocks")
 		}
